@@ -22,7 +22,7 @@ def _as(R, ctx, rid, rule, own_id):
 
 
 def _rules():
-    from . import c01, c02, c03, c04, c05, c06, c07, c08, c09_prims, c12, c13, c16, c17, preds, shared, wire_rules
+    from . import accessors, c01, c02, c03, c04, c05, c06, c07, c08, c09_prims, c12, c13, c16, c17, preds, shared, wire_rules
     return {
         "conflict": [
             lambda R, c, rid: c01.rule_f(R, c, rid),
@@ -72,10 +72,13 @@ def _rules():
             lambda R, c, rid: c17.rule_c(R, c, rid),
             lambda R, c, rid: c17.rule_d(R, c, rid),
             lambda R, c, rid: shared.gap_scan_state(R, c, rid),
+            lambda R, c, rid: c17.rule_b(R, c, rid),
         ],
         "lookup": [
             lambda R, c, rid: shared.lookup_slices(R, c, rid),
             lambda R, c, rid: preds.rule(R, c, rid, ["item_contains", "slice_contains_id", "blockrange_contains"]),
+            lambda R, c, rid: accessors.range_accessors(R, c, rid),
+            lambda R, c, rid: accessors.binary_searches(R, c, rid),
         ],
         "content": [
             lambda R, c, rid: shared.content_tables(R, c, rid),
@@ -98,6 +101,7 @@ def _rules():
             lambda R, c, rid: c08.rule_e(R, c, rid),
             lambda R, c, rid: c08.rule_b(R, c, rid),
             lambda R, c, rid: preds.rule(R, c, rid, ["same_type"]),
+            lambda R, c, rid: accessors.variant_preserving(R, c, rid),
         ],
         "redone": [
             lambda R, c, rid: c12.rule_f(R, c, rid),
@@ -110,6 +114,8 @@ def _rules():
             lambda R, c, rid: c06.rule_e(R, c, rid),
             lambda R, c, rid: shared.known_state(R, c, rid),
             lambda R, c, rid: shared.exclude_known(R, c, rid),
+            lambda R, c, rid: accessors.range_accessors(R, c, rid),
+            lambda R, c, rid: accessors.variant_preserving(R, c, rid),
         ],
         "text-units": [
             lambda R, c, rid: shared.text_units(R, c, rid),
@@ -141,17 +147,17 @@ DEPENDS = {
     "C05": ["conflict", "squash", "splice", "dependency", "map-api", "merge", "delete-set", "update-events"],
     "C06": ["dependency", "delete-set", "slice", "partial", "lookup", "content", "merge", "state-vector", "liveness", "block-wire"],
     "C07": ["delete-set", "slice", "partial", "export", "liveness", "block-wire", "state-vector"],
-    "C08": ["slice", "delete-set", "partial", "block-wire", "state-vector"],
+    "C08": ["slice", "delete-set", "partial", "block-wire", "state-vector", "merge"],
     "C09": ["slice", "partial", "content", "identity", "weak-wire", "block-wire"],
     "C11": ["liveness"],
     "C12": ["splice", "squash", "lookup"],
     "C13": ["splice", "delete-set", "lookup", "content", "export", "liveness", "state-vector", "block-wire"],
     "C14": ["splice", "liveness", "lookup", "redone", "block-iter", "identity"],
     "C15": ["squash", "splice", "content", "block-wire", "liveness"],
-    "C16": ["delete-set"],
+    "C16": ["delete-set", "lookup"],
     "C17": ["flags", "content", "map-api", "block-iter"],
-    "C18": ["dependency", "stash-deletes", "partial", "export", "block-wire", "merge", "state-vector"],
-    "C20": ["dependency", "splice", "squash", "lookup", "identity", "weak-wire"],
+    "C18": ["dependency", "stash-deletes", "partial", "export", "block-wire", "merge", "state-vector", "lookup"],
+    "C20": ["dependency", "splice", "squash", "lookup", "identity", "weak-wire", "liveness"],
 }
 
 
